@@ -1,5 +1,5 @@
 (* C02 — no scaling activity while a cloud scale-up is inside its cool-down.  Theorems only. *)
-From Esc Require Import Examples proofs.ScanState proofs.ScanHistory.
+From Esc Require Import Examples proofs.ScanState proofs.ScanHistory proofs.ScanPrelude.
 
 (* one scan, any pre-scan state: inside the cool-down no write of any kind is issued and the lock is left exactly
    as found; the lock's time changes only by being set to the instant of a scan in which an increase was accepted
@@ -55,3 +55,10 @@ Definition ex_locked (age_s : Z) : gstate :=
      g_cache := (qty0, qty0); g_taint_tracker := []; g_force_tracker := [] |}.
 Example c02_ex : r_calls (ex_scan ex_opts_min5 (ex_locked 100) 4800) = [] /\ r_calls (ex_scan ex_opts_min5 (ex_locked 700) 4800) <> [].
 Proof. split; vm_compute; [reflexivity | discriminate]. Qed.
+
+(* a provider rebuild in RunOnce's prelude (after a failed refresh) leaves the controller's per-group memory — the
+   scale lock with its time — untouched: the groups scanned afterwards carry the state they had, so the theorems above
+   apply across a rebuild; only the cloud groups' clean-up counters are reset *)
+Theorem c02_rebuild_keeps_lock : forall ds s, s_groups (after_prelude ds s) = s_groups s.
+Proof. exact after_prelude_groups. Qed.
+Print Assumptions c02_rebuild_keeps_lock.
